@@ -293,14 +293,14 @@ def h1_programs(K=2, first=None, second=None, timeout=200, part=None, one_matrix
             else:
                 o = OPS[ex.choice(len(OPS), "op%d" % k)]
             a = [ex.real("a%d_%d" % (k, i), -100, 100) for i in range(NARGS[o])]
+            if o == "Tz":
+                ex.assume(a[0] != 0)                  # stated here, before any operator ran: later the solver context holds products and the consistency check gets expensive
             prog.append((o, a))
         if one_matrix and sum(1 for p in prog if p[0] in ("Tm", "cm")) > 1:
             raise symx.Abort()                        # programs with two symbolic matrices: thorough tier only (quartic terms)
         prog.append(("Tj", []))                       # a final probe glyph pair makes every state change observable
         info = {"prog": [p[0] for p in prog], "bbox": not any(p[0] in ("Tm", "cm") for p in prog)}
         for o, a in prog:
-            if o == "Tz":
-                ex.assume(a[0] != 0)
             try:
                 run_real(it, o, a)
             except symx.Violation:
